@@ -5,7 +5,11 @@
 pub struct ExBytesMut(bytes::BytesMut);
 pub uninterp spec fn bmv(b: &BytesMut) -> Seq<u8>;
 pub assume_specification [bytes::BytesMut::len] (b: &bytes::BytesMut) -> (r: usize) ensures r == bmv(b).len();
-pub assume_specification [bytes::BytesMut::with_capacity] (c: usize) -> (r: bytes::BytesMut) ensures bmv(&r) == Seq::<u8>::empty();
+// bm_cap: the allocated capacity (BytesMut::with_capacity(c) is BytesMut::from_vec(Vec::with_capacity(c)), whose capacity is exactly c for u8)
+pub uninterp spec fn bm_cap(b: &BytesMut) -> nat;
+pub assume_specification [bytes::BytesMut::with_capacity] (c: usize) -> (r: bytes::BytesMut) ensures bmv(&r) == Seq::<u8>::empty(), bm_cap(&r) == c;
+pub assume_specification<'a> [<bytes::BytesMut as std::convert::AsRef<[u8]>>::as_ref] (b: &'a bytes::BytesMut) -> (r: &'a [u8])
+    ensures r@ == bmv(b);
 pub assume_specification [bytes::BytesMut::new] () -> (r: bytes::BytesMut) ensures bmv(&r) == Seq::<u8>::empty();
 #[verifier::external_body]
 pub fn shim_put_u8(b: &mut bytes::BytesMut, v: u8) ensures bmv(final(b)) == bmv(old(b)).push(v) { b.put_u8(v) }
